@@ -71,7 +71,10 @@ impl egg::CostFunction<Expr> for CostFn<'_> {
             }
             Apply([_, l, r]) => build() + costs(l) + rows(l) * costs(r),
             Insert([_, _, c]) | CopyTo([_, c]) => rows(c) * cols(c) + costs(c),
-            Empty(_) => 0.0,
+            // Not cheaper than the plan it stands for: `(empty c)` can be in the class of `c`
+            // itself (a filter `false` over a join that is already known to be empty), and a
+            // node cheaper than its own class would be extracted as an infinite term.
+            Empty(c) => costs(c),
             Max1Row(c) => costs(c),
             // expressions
             Column(_) | Ref(_) => 0.01, // column reference is almost free
